@@ -11,7 +11,7 @@
    the two differ for GGetCells (Some area) only. *)
 From Coq Require Import List ZArith Lia Bool Arith.
 Import ListNotations.
-Require Import Vault Row Table Grid Tableabs Tablexmlproof TableB TableBabs TableBproof TableG TableGspec TableGproof TableGproof2 TableGproof3 TableGproof4 TableGproof5 TableGproof6 TableGproof7 TableGproof8 TableGsweep.
+Require Import Vault Row Table Grid Tableabs Tablexmlproof TableB TableBabs TableBproof TableG TableGspec TableGproof TableGproof2 TableGproof3 TableGproof4 TableGproof5 TableGproof6 TableGproof7 TableGproof8 TableGf TableGfproof TableGsweep.
 Open Scope Z_scope.
 
 (* ---- the full statement: on every well-formed table whose rows fit its columns, every getter with any coordinates
@@ -87,6 +87,22 @@ Proof. exact small_scope_padded. Qed.
 Print Assumptions C08_small_scope_candidate_repair.
 Example small_scope_bounds : (length small_tables, length small_getters) = (396%nat, 2382%nat).
 Proof. exact small_scope_size. Qed.
+
+(* ---- the FILTERED getters: get_cells(coord, cell_type=, style=, content=, flat=), get_rows(coord, style=, content=),
+        get_columns(coord, style=), get_column_cells(x, style=, content=, cell_type=, complete=), Row.get_cells(coord, ...), for ANY
+        filter (any predicate on the copy the loop holds): the answer is exactly the filter of the answer of the unfiltered getter
+        (flat=True: concatenated; complete=True: None in place of a rejected cell), and that unfiltered answer meets the as-stored
+        specification on every well-formed table whose rows fit: the returned objects still carry the coordinates of the addressed
+        positions, their content, no repeat, and are Detached ---- *)
+Theorem C08_filtered_is_filter_of_unfiltered : forall (f : filt) (t : tstate) (g : fgetter),
+  m_fget f t g = apply_filter f g (m_get false false t (base_getter g)).
+Proof. exact filtered_is_filter. Qed.
+Print Assumptions C08_filtered_is_filter_of_unfiltered.
+Theorem C08_filtered_getters : forall (f : filt) (t : tstate) (g : fgetter), WF t -> fits t = true ->
+  exists r0, meets (promises_copy (base_getter g)) (expands (base_getter g)) r0 (spec_get false (abs_t t) (base_getter g)) = true /\
+             m_fget f t g = apply_filter f g r0.
+Proof. exact filtered_getters_hold. Qed.
+Print Assumptions C08_filtered_getters.
 
 (* ---- LAZY consumption of the generators (traverse, Row.traverse, traverse_columns and everything built on them): the caller
         edits object k as soon as it is yielded, before object k+1 is produced.  In the code as it is every copy is made from the
